@@ -51,13 +51,19 @@ static void modelTest(const Desc& d, const Vec<int>& testGroups, const Vec<int>&
     int mySeq = ++ms.seq;
     // plugin pre actions: installation-reversed order (the chain, head first)
     if (!ms.chainInit) { ms.chainInit = true; for (size_t p = pluginGroups.size(); p-- > 0;) { const Group& P = d.groups[(size_t)pluginGroups[p]]; if (!P.arg(1) && !P.arg(2)) ms.chain.push_back((int)p); } }
-    Vec<int> chainAtStart = ms.chain;
+    Vec<int> chainAtStart = ms.chain;      // (a pre action may take a plugin behind it out of the chain: it is erased from this walk list as well and sees neither action)
     for (size_t ci = 0; ci < chainAtStart.size(); ci++) {
         size_t p = (size_t)chainAtStart[ci];
         const Group& P = d.groups[(size_t)pluginGroups[p]];
         if (!P.arg(0, 1)) continue;
         for (size_t i = 0; i < P.ops.size(); i++) if (P.ops[i].phase == PH_PRE) {
             const Op& o = P.ops[i];
+            if (o.kind == K_PLUGIN_REMOVE) {
+                int q = (int)o.a; bool behind = false;
+                for (size_t cj = ci + 1; cj < chainAtStart.size(); cj++) if (chainAtStart[cj] == q) { behind = true; chainAtStart.erase(chainAtStart.begin() + (long)cj); break; }
+                Vec<int>::iterator it = std::find(ms.chain.begin(), ms.chain.end(), q);
+                if (it != ms.chain.end() && q != (int)p) { ms.chain.erase(it); if (!behind) x.chainChanged = true; }      // a plugin that already had its pre action loses its post action: the test's own doing, not compared
+            }
             if (o.kind == K_PLUGIN_ERROR) {          // a plugin may also report an error before the test starts; the test still runs
                 if (o.a > 1 && (ms.pluginCalls[p] % (int)o.a) != 0) continue;
                 ExpFail f; f.token = o.s2; f.file = "plugin.cpp"; f.line = (size_t)o.d; f.testName = formattedName(T); f.anyLocation = false; f.kind = 2;
